@@ -5,7 +5,6 @@
 
 from __future__ import annotations
 
-import contextlib
 import logging
 from collections.abc import Callable, Iterator
 from io import IOBase
@@ -244,10 +243,25 @@ class StreamSession:
                 self._output_reader = ValidatedReader(ipc.open_stream(self._reader_stream), self._ipc_validation)
             except (pa.ArrowInvalid, OSError, StopIteration):
                 return
+        self._drain_output()
+
+    def _drain_output(self) -> None:
+        """Read the output stream to its EOS marker, delivering log batches on the way.
+
+        An EXCEPTION batch is one more batch to step over, not the end of the
+        stream: stopping at it would leave the EOS marker unread on the
+        transport, where the next call would take it for its response.
+        """
+        if self._output_reader is None:
+            return
         _MAX_DRAIN = 10_000
-        with contextlib.suppress(StopIteration, RpcError, pa.ArrowInvalid, OSError):
-            for _ in range(_MAX_DRAIN):
+        for _ in range(_MAX_DRAIN):
+            try:
                 _read_batch_with_log_check(self._output_reader, self._on_log, self._external_config, shm=self._shm)
+            except RpcError:
+                continue
+            except (StopIteration, pa.ArrowInvalid, OSError):
+                return
 
     def cancel(self) -> None:
         """Signal the server to stop processing and discard pending work.
@@ -282,10 +296,7 @@ class StreamSession:
                 self._output_reader = ValidatedReader(ipc.open_stream(self._reader_stream), self._ipc_validation)
             except (pa.ArrowInvalid, OSError, StopIteration):
                 return
-        _MAX_DRAIN = 10_000
-        with contextlib.suppress(StopIteration, RpcError, pa.ArrowInvalid, OSError):
-            for _ in range(_MAX_DRAIN):
-                _read_batch_with_log_check(self._output_reader, self._on_log, self._external_config, shm=self._shm)
+        self._drain_output()
 
     def __enter__(self) -> StreamSession:
         """Enter context manager."""
